@@ -772,3 +772,9 @@ func init() {
 	nontrivialRule["C12"] = "claim-for-everyone was executed in a state with at least one delegation"
 	expectedProbes["C12"] = []string{"c12_settlement", "c12_slash_with_accrued_unclaimed_rewards", "c12_take_rate_between_accrual_and_claim"}
 }
+
+func init() {
+	monitorRegistry["C13"] = func(s *Schedule) []Monitor { return []Monitor{newMonC13()} }
+	nontrivialRule["C13"] = "at least one explicit or implicit claim was compared with the eager entitlement ledger"
+	expectedProbes["C13"] = []string{"c13_settlement", "c13_two_assets_on_one_validator", "c13_new_position_delegate", "c13_grow_existing_delegate", "c13_new_position_redelegate", "c13_grow_existing_redelegate"}
+}
